@@ -7,8 +7,20 @@ use std::cmp::Ordering;
 use std::hash::{Hash, Hasher};
 use unic_langid_impl::LanguageIdentifier;
 
-/// 64-bit FNV-1a: a fixed, deterministic hasher so that "hash equally" is decidable
-pub struct Fnv(pub u64);
+/// A fixed, deterministic 64-bit hasher so that "hash equally" is decidable.  Rotate-xor mixing with a
+/// write counter (no multiplications: a chain of ~250 symbolic 64-bit multiplies, as FNV-1a needs for one
+/// identifier, stalls both CBMC's simplifier and the SAT solver; measured: no verdict in 30 min).
+/// Every `write_*` call of the derived `Hash` impls contributes its value *and* its position, so two
+/// values hash equally here only if they issue the same sequence of writes up to xor-collisions the
+/// solver is free to search for.
+pub struct Fnv(pub u64, pub u64);
+impl Fnv {
+    #[inline(always)]
+    fn mix(&mut self, x: u64) {
+        self.1 += 1;
+        self.0 = self.0.rotate_left(7) ^ x ^ (self.1 << 48);
+    }
+}
 impl Hasher for Fnv {
     fn finish(&self) -> u64 {
         self.0
@@ -16,13 +28,28 @@ impl Hasher for Fnv {
     fn write(&mut self, bytes: &[u8]) {
         let mut i = 0;
         while i < bytes.len() {
-            self.0 = (self.0 ^ bytes[i] as u64).wrapping_mul(0x100000001b3);
+            self.mix(bytes[i] as u64);
             i += 1;
         }
     }
+    fn write_u8(&mut self, i: u8) {
+        self.mix(0x100 | i as u64)
+    }
+    fn write_u32(&mut self, i: u32) {
+        self.mix(i as u64)
+    }
+    fn write_u64(&mut self, i: u64) {
+        self.mix(i)
+    }
+    fn write_usize(&mut self, i: usize) {
+        self.mix(i as u64)
+    }
+    fn write_isize(&mut self, i: isize) {
+        self.mix(i as u64)
+    }
 }
 pub fn fnv<T: Hash>(x: &T) -> u64 {
-    let mut h = Fnv(0xcbf29ce484222325);
+    let mut h = Fnv(0xcbf29ce484222325, 0);
     x.hash(&mut h);
     h.finish()
 }
@@ -54,7 +81,108 @@ fn eq_ord(maxv: usize) {
     core::mem::forget(y);
 }
 
+use unic_locale_impl::extensions::{PrivateExtensionList, TransformExtensionList, UnicodeExtensionList};
+
+fn umodel_eq(a: &crate::xspec::UModel, b: &crate::xspec::UModel) -> bool {
+    if a.nattrs != b.nattrs || a.kw.nkeys != b.kw.nkeys {
+        return false;
+    }
+    let mut i = 0;
+    while i < spec::VMAX {
+        if i < a.nattrs && !spec::txt_eq(&a.attrs[i], &b.attrs[i]) {
+            return false;
+        }
+        i += 1;
+    }
+    let mut i = 0;
+    while i < crate::xspec::KMAX {
+        if i < a.kw.nkeys {
+            if !spec::txt_eq(&a.kw.keys[i], &b.kw.keys[i]) || a.kw.nvals[i] != b.kw.nvals[i] {
+                return false;
+            }
+            let mut j = 0;
+            while j < crate::xspec::TYMAX {
+                if j < a.kw.nvals[i] && !spec::txt_eq(&a.kw.vals[i][j], &b.kw.vals[i][j]) {
+                    return false;
+                }
+                j += 1;
+            }
+        }
+        i += 1;
+    }
+    true
+}
+
+/// two -u- lists parsed from length-profiled frames: == iff the models (hence the canonical strings, C04)
+/// are equal; Equal iff ==; antisymmetric; equal values hash equally
+fn ulist_eq<const K: usize>(lens: [usize; K]) {
+    let ta = h::toks_len(lens);
+    let tb = h::toks_len(lens);
+    h::note_toks(&ta);
+    h::note_toks(&tb);
+    let (ma, _, oa) = crate::xspec::parse_u(&spec::infos(&ta), 0);
+    let (mb, _, ob) = crate::xspec::parse_u(&spec::infos(&tb), 0);
+    k::assume(!oa && !ob);
+    let (a, _) = h::parse_ulist_tokens(&ta);
+    let (b, _) = h::parse_ulist_tokens(&tb);
+    if let (Ok(a), Ok(b), Ok(ma), Ok(mb)) = (&a, &b, &ma, &mb) {
+        let eq = a == b;
+        cover!(eq && !a.is_empty());
+        cover!(!eq);
+        assert!(eq == umodel_eq(ma, mb), "== iff same attributes and keywords (same canonical string)");
+        let c = a.cmp(b);
+        assert!((c == Ordering::Equal) == eq, "Equal iff ==");
+        assert!(b.cmp(a) == c.reverse(), "antisymmetric");
+        assert!(a.partial_cmp(b) == Some(c));
+        if eq {
+            assert!(fnv(a) == fnv(b), "equal values hash equally");
+        }
+    }
+    core::mem::forget((a, b));
+}
+
 proofs! {
+
+[push, sortt] fn c12_ulist_eq_3_3() { ulist_eq([3, 3]) }
+[push, sortt] fn c12_ulist_eq_2_3() { ulist_eq([2, 3]) }
+
+// route independence for the extension lists: add then remove == never added (==, hash, Equal)
+[insrem, push, sortt] fn c12_routes_ext() {
+    let d = UnicodeExtensionList::default();
+    let mut u = UnicodeExtensionList::default();
+    let t = sym::tok_len(4);
+    sym::note("attr", &t);
+    if u.set_attribute(t.bytes()).is_ok() {
+        cover!(true);
+        assert!(u != d);
+        assert!(u.remove_attribute(t.bytes()) == Ok(true));
+        assert!(u == d && fnv(&u) == fnv(&d) && u.cmp(&d) == Ordering::Equal, "attribute added then removed == never added");
+    }
+    let dp = PrivateExtensionList::default();
+    let mut p = PrivateExtensionList::default();
+    if p.add_tag(t.bytes()).is_ok() {
+        assert!(p != dp);
+        assert!(p.remove_tag(t.bytes()) == Ok(true));
+        assert!(p == dp && fnv(&p) == fnv(&dp) && p.cmp(&dp) == Ordering::Equal, "tag added then removed == never added");
+    }
+    core::mem::forget((u, d, p, dp));
+}
+[push, sortt] fn c12_routes_keyword() {
+    let d = UnicodeExtensionList::default();
+    let mut u = UnicodeExtensionList::default();
+    let key = sym::tok_len(2);
+    let v = sym::tok_len(3);
+    sym::note("key", &key);
+    let arr: [&[u8]; 1] = [v.bytes()];
+    if u.set_keyword(key.bytes(), &arr).is_ok() {
+        cover!(true);
+        assert!(u != d);
+        assert!(u.remove_keyword(key.bytes()) == Ok(true));
+        assert!(u == d && fnv(&u) == fnv(&d) && u.cmp(&d) == Ordering::Equal, "keyword set then removed == never set");
+        assert!(u.is_empty());
+    }
+    core::mem::forget((u, d));
+}
 
 [] fn c12_langid_eq_ord_v1() { eq_ord(1) }
 [] fn c12_langid_eq_ord_v2() { eq_ord(2) }
